@@ -224,7 +224,7 @@ op("t", lambda T, a: T[0].t(), lambda D, a: D[0].t())
 op("T", lambda T, a: T[0].T, lambda D, a: D[0].permute(tuple(reversed(range(D[0].ndim)))))
 op("flatten", lambda T, a: T[0].flatten(), lambda D, a: D[0].flatten())
 op("unsqueeze", lambda T, a: T[0].unsqueeze(a[0]), lambda D, a: D[0].unsqueeze(a[0]))
-op("expand", lambda T, a: T[0].expand(*a[0]), lambda D, a: D[0].expand(*a[0]), raises_like_torch=True)
+op("expand", lambda T, a: T[0].expand(*a[0]), lambda D, a: D[0].expand(a[0]), raises_like_torch=True)
 op("expand_as", lambda T, a: T[0].expand_as(T[1]), lambda D, a: D[0].expand_as(D[1]), n=2)
 op("repeat_as_expand", lambda T, a: T[0].repeat(*a[0]), lambda D, a: D[0].expand(*a[0]).clone())
 op("stack", lambda T, a: __import__("fggs.indices").indices.stack(T, a[0]), lambda D, a: torch.stack(D, a[0]), n=-1)
@@ -541,10 +541,13 @@ def _key(obl: str, case: dict, detail: str) -> str:
         args = case.get("args", [])
         dim = args[0] if opn == "log_softmax" else args[1]
         tags.append("dim-of-size-1" if shape_of(rs[0])[dim] == 1 else dcl)
+    elif opn in ("maximum", "maximum_self") and clause == "value":
+        tags.append("a-default-is-nan" if "nan" in dcl else dcl)
     elif opn in DEFAULT_SENSITIVE and clause == "value" and opn != "nan_to_num_":
         tags.append(dcl)
     elif opn == "nan_to_num_":
-        tags += [dcl, "args=" + json.dumps(case.get("args")), rs[0].get("dtype", "float64")]
+        a = case.get("args", [None, None, None])
+        tags += ["neginf-given" if a[2] is not None else "neginf=None", rs[0].get("dtype", "float64")]
     else:
         if any(0 in r["pool"] for r in rs): tags.append("zero-size-axis")
         if any(_has_sum0(x) for r in rs for x in r["vaxes"]): tags.append("SumAxis(0,e,0)")
@@ -602,7 +605,7 @@ def gen_unit(unit: dict):
                     for a in NAN_TO_NUM_ARGS:
                         yield {"op": "nan_to_num_", "ops": [r], "args": a}
                     di7 = DEFAULTS7.index(dflt) if dflt == dflt else 6
-                    for s in (SCALARS if (th or pi % 5 == 0) else [SCALARS[(pi + di7) % 5], SCALARS[(pi + 2 * di7 + 2) % 5]]):
+                    for s in (SCALARS if (th or pi % 5 == 0) else [SCALARS[(pi + di7) % 5]]):
                         for name in ("lt", "le", "gt", "ge", "eq", "add", "mul", "sub", "div"):
                             yield {"op": name + "_scalar", "ops": [r], "args": [enc(s)]}
                         for name in ("clamp_min", "clamp_max", "__imul__scalar", "__itruediv__scalar"):
@@ -642,15 +645,14 @@ def gen_unit(unit: dict):
                     yield one("project", [{"pool": r["pool"], "vaxes": r["vaxes"]}, "alias"])
                     for d2 in ([0.0, 1.0, -inf, nan, dflt] if full else [0.0, dflt]):
                         yield one("default_to", [enc(d2)])
-                    for dim in range(-nd - 1, nd + 1):
+                    for dim in (range(-nd - 1, nd + 1) if full else sorted({0, nd, -1, -nd - 1})):
                         yield one("unsqueeze", [dim])
                     for dim in range(nd):
                         yield one("dim_to_dense", [dim])
                         yield one("log_softmax", [dim])
                         if full: yield one("log_softmax", [dim - nd])
-                        for pn in (1, 2):
-                            for kd in (False, True):
-                                yield one("norm", [pn, dim, kd])
+                        for pn, kd in (((1, False), (1, True), (2, False), (2, True)) if full else ((1, bool(di % 2)), (2, not di % 2))):
+                            yield one("norm", [pn, dim, kd])
                         if full: yield one("norm", [2, dim - nd, False])
                     if full:
                         for perm in _perms(nd):
@@ -666,10 +668,11 @@ def gen_unit(unit: dict):
                             yield one("__getitem__", [i])
                         # expand: valid and invalid sizes
                         cands = []
-                        for lead in ([], [2], [1], [3, 1]):
-                            for tail in itertools.product(*[sorted({n, 1, 2, 3}) for n in shape]):
+                        for lead in ([], [2], [3, 1]):
+                            for tail in itertools.product(*[([1, 2] if n == 1 else [n, 1]) for n in shape]):
                                 cands.append(lead + list(tail))
-                        if nd: cands.append(list(shape[1:]))     # too few sizes
+                        cands.append([2] + [n + 1 for n in shape])   # size mismatch
+                        if nd: cands.append(list(shape[1:]))         # too few sizes
                         for sizes in cands:
                             if G._prod(sizes) <= 24:
                                 yield one("expand", [sizes])
@@ -844,7 +847,7 @@ def _run_unit(unit: dict) -> dict:
     torch.set_num_threads(1)
     from fggs import indices as I
     c0 = dict(I._verif_stats)
-    t0 = time.time()
+    t0 = time.time(); tp0 = time.process_time()
     cases = 0
     distinct = set()
     nontriv = 0
@@ -874,7 +877,7 @@ def _run_unit(unit: dict) -> dict:
     return {"kind": unit["kind"], "cases": cases, "distinct": len(distinct), "nontrivial": nontriv,
             "fails": fails, "per_key": per_key, "samples": samples, "ops": ops_seen,
             "checked": c1["checked"] - c0["checked"], "skipped": c1["skipped"] - c0["skipped"],
-            "wall": time.time() - t0, "unit": {k: v for k, v in unit.items()}}
+            "wall": time.process_time() - tp0, "unit": {k: v for k, v in unit.items()}}
 
 
 def _bshapes(numel_max):
